@@ -37,9 +37,8 @@ struct c17_hlog {
 struct c17_call { void *obj; long a, b, c; void *p, *q; };
 #define C17_LOGN 4
 struct c17_clog { unsigned n; struct c17_call c[C17_LOGN]; };
-/* MEASURED: DFCC checks every assignment against every assigns target (a loop over the write
- * set), so all logs live in ONE struct (one target) and a log entry is written by ONE struct
- * assignment: connect_thread_prv went from 70 s of symbolic execution to a few seconds. */
+/* DFCC checks every assignment against every assigns target (a loop over the write set):
+ * all logs live in ONE struct (one target) and a log entry is written by ONE struct assignment. */
 struct c17_logs {
 	struct c17_clog calloc_, chan_init, track_init, prop, bayreg, connect, prvreg, select, input, pcftype, pcfval, cputh, getout;
 } g_L;
